@@ -268,7 +268,7 @@ func (k *checker) runOK(cs Case, r *drive.Result) bool {
 }
 
 // evalProto runs `pprof -proto <filters>` and compares the saved profile.
-func (k *checker) evalProto(cs Case, a *ap.AP, data []byte, rel bool) {
+func (k *checker) evalProto(cs Case, a *ap.AP, data []byte, rel bool) (got *ap.AP) {
 	c := k.c
 	cs.Via = "proto"
 	flags := append([]string{"proto"}, cs.Filter.Flags()...)
@@ -279,16 +279,17 @@ func (k *checker) evalProto(cs Case, a *ap.AP, data []byte, rel bool) {
 	c.Eval()
 	r := drive.Report(map[string][]byte{"p": data}, []string{"p"}, flags...)
 	if !k.runOK(cs, r) {
-		return
+		return nil
 	}
 	q, err := profile.ParseData(r.Out)
 	if err != nil {
 		c.Violationf("e2e/proto-unparsable", cs, "%v", err)
-		return
+		return nil
 	}
-	got := ap.Abstract(q)
+	got = ap.Abstract(q)
 	c.Count("e2e/proto-compared", 1)
 	k.account(cs, a, ap.Opts{}, got, judge(a, cs.Filter, got))
+	return got
 }
 
 var totalRx = regexp.MustCompile(`Showing nodes accounting for (-?[0-9]+), .* of (-?[0-9]+) total`)
